@@ -606,29 +606,6 @@ Proof.
     rewrite Hfold. exists L, hz. split; [reflexivity|exact HInv].
 Qed.
 
-(* a whole history with the repaired code *)
-Lemma prun_repaired : forall ops1 t ops0 flags hz0,
-  Inv t ops0 -> Forall valid_op ops1 ->
-  exists t' hz, prun repaired t tt ops1 flags hz0 =
-                Some (t', tt, flags ++ map (fun k => forallb (disjoint_b (fst (fst (nth k (ops0 ++ ops1) (0, 0, O)))) (snd (fst (nth k (ops0 ++ ops1) (0, 0, O)))))
-                                                       (firstn k (ops0 ++ ops1)))
-                                          (seq (length ops0) (length ops1)), hz)
-                /\ Inv t' (ops0 ++ ops1).
-Proof.
-  induction ops1 as [|[[a b] v] r IH]; intros t ops0 flags hz0 HI Hv.
-  - cbn [prun irun length seq map]. rewrite !app_nil_r. exists t, hz0. split; [reflexivity|exact HI].
-  - inversion Hv as [|? ? Hop Hv']; subst. cbn [valid_op] in Hop.
-    destruct (pinsert_repaired t ops0 a b v HI Hop) as [t1 [hz1 [Hins HI1]]].
-    unfold prun. cbn [irun]. fold pinsert. rewrite Hins. fold prun.
-    destruct (IH t1 (ops0 ++ [(a, b, v)]) (flags ++ [forallb (disjoint_b a b) ops0]) (hz0 || hz1) HI1 Hv') as [t2 [hz2 [Hrun HI2]]].
-    rewrite <- app_assoc in Hrun, HI2. cbn [app] in Hrun, HI2.
-    exists t2, hz2. split; [|exact HI2]. rewrite Hrun. f_equal. f_equal. f_equal.
-    rewrite <- app_assoc. f_equal. cbn [length seq map]. f_equal.
-    + rewrite app_nth2 by lia. rewrite Nat.sub_diag. cbn [nth fst snd].
-      rewrite firstn_app, firstn_all, Nat.sub_diag. cbn [firstn]. rewrite app_nil_r. reflexivity.
-    + rewrite app_length. cbn [length]. rewrite Nat.add_1_r. reflexivity.
-Qed.
-
 (* ------------------------------------------------------------------ Heap: the Go slices *)
 Definition swf (h : heap) (s : slice) : Prop :=
   (sarr s < length h)%nat /\ (slen s <= length (nth (sarr s) h []))%nat.
@@ -885,4 +862,172 @@ Proof.
       replace {| eS := a; eE := b; eV := [v] |} with (absE h2 (mkE a b s)) by (unfold absE; cbn [eS eE eV]; rewrite Rs; reflexivity).
       rewrite (tset_map (absE h2) (absE_key h2)). reflexivity.
     * apply tset_Forall; [|exact Ws]. apply fold_tset_Forall; [apply Forall_app; split; assumption|assumption].
+Qed.
+
+(* ------------------------------------------------------------------ Guard: when the code as it is takes the repaired steps *)
+Lemma pstep_guard c e a b v prev :
+  fix_gap c = true \/ so_hz (pstep c tt e a b v prev) = false ->
+  pstep c tt e a b v prev = pstep repaired tt e a b v prev.
+Proof.
+  intros Hg. unfold pstep in *. rewrite istep_hz in Hg. rewrite !istep_nf. unfold papp, pmk1, pspare in *.
+  cbn [orb] in Hg.
+  assert (Hgap : c_gap c e a b prev = c_gap repaired e a b prev).
+  { unfold c_gap. destruct prev as [p|]; [|reflexivity]. cbn [repaired fix_gap].
+    destruct (fix_gap c); [reflexivity|]. destruct Hg as [Hg|Hg]; [discriminate|].
+    apply Z.eqb_neq in Hg. destruct (Z.ltb_spec (eE p) (c_curS e a b)); destruct (Z.ltb_spec (eE p + 1) (c_curS e a b)); try reflexivity; lia. }
+  rewrite Hgap. reflexivity.
+Qed.
+
+Lemma ploop_guard c a b v : forall es prev r' pd pv hz,
+  ploop c tt es a b v prev = (r', pd, pv, tt, hz) -> fix_gap c = true \/ hz = false ->
+  exists hz', ploop repaired tt es a b v prev = (r', pd, pv, tt, hz').
+Proof.
+  induction es as [|e r IH]; intros prev r' pd pv hz Hl Hg; unfold ploop in *; cbn [iloop] in *.
+  - injection Hl as <- <- <- <-. exists false. reflexivity.
+  - destruct (b <? eS e).
+    + injection Hl as <- <- <- <-. exists false. reflexivity.
+    + fold (pstep c tt e a b v prev) in Hl. fold (pstep repaired tt e a b v prev). fold ploop in *.
+      assert (Hst : forall o : istep_out unit (list nat), so_st o = tt) by (intros o; destruct (so_st o); reflexivity).
+      rewrite Hst in *.
+      destruct (ploop c tt r a b v (Some (so_cur (pstep c tt e a b v prev)))) as [[[[r2 pd2] pv2] st2] hz2] eqn:Hrec.
+      destruct st2. injection Hl as <- <- <- <-.
+      assert (Hg1 : fix_gap c = true \/ so_hz (pstep c tt e a b v prev) = false).
+      { destruct Hg as [Hg|Hg]; [left; exact Hg|right]. apply orb_false_iff in Hg. apply Hg. }
+      assert (Hg2 : fix_gap c = true \/ hz2 = false).
+      { destruct Hg as [Hg|Hg]; [left; exact Hg|right]. apply orb_false_iff in Hg. apply Hg. }
+      rewrite <- (pstep_guard c e a b v prev Hg1). rewrite ?Hst.
+      destruct (IH _ _ _ _ _ Hrec Hg2) as [hz' Hr']. unfold ploop in Hr'. rewrite Hr'.
+      eexists. reflexivity.
+Qed.
+
+Lemma pinsert_guard c t a b v t' d hz :
+  pinsert c t tt a b v = IOk t' tt d hz -> fix_gap c = true \/ hz = false ->
+  exists hz', pinsert repaired t tt a b v = IOk t' tt d hz'.
+Proof.
+  unfold pinsert, iinsert. intros Hi Hg. destruct (b <? a); [discriminate|].
+  destruct (seek_split t a) as [bef rest].
+  fold (ploop c tt rest a b v None) in Hi. fold (ploop repaired tt rest a b v None).
+  destruct (ploop c tt rest a b v None) as [[[[r' pd] pv] st1] hz1] eqn:Hl. destruct st1.
+  assert (Hz : hz = hz1).
+  { destruct pv as [p|]; [destruct (eE p <? b)|]; cbn [pmk1] in Hi; injection Hi; intros; congruence. }
+  subst hz1. destruct (ploop_guard c a b v rest None r' pd pv hz Hl Hg) as [hz' Hl']. rewrite Hl'.
+  destruct pv as [p|]; [destruct (eE p <? b)|]; cbn [pmk1] in *; injection Hi as <- <-; eexists; reflexivity.
+Qed.
+
+(* ------------------------------------------------------------------ whole histories *)
+Definition grun := irun heap slice hsingle happend hspare.
+
+Lemma grun_hz_mono c : forall ops t h flags hz0 t' h' flags' hz,
+  grun c t h ops flags hz0 = Some (t', h', flags', hz) -> hz = false -> hz0 = false.
+Proof.
+  induction ops as [|[[a b] v] r IH]; intros t h flags hz0 t' h' flags' hz Hr Hz; unfold grun in *; cbn [irun] in Hr.
+  - injection Hr as _ _ _ <-. exact Hz.
+  - destruct (iinsert heap slice hsingle happend hspare c t h a b v) as [|t1 h1 d1 hz1]; [discriminate|].
+    specialize (IH _ _ _ _ _ _ _ _ Hr Hz). apply orb_false_iff in IH. apply IH.
+Qed.
+
+Lemma lk_abs t h q : values_of (go_get t h q) = lk (map (absE h) t) q.
+Proof.
+  unfold go_get, iget_gen, lk, values_of. rewrite (seek_split_map (absE h) (absE_key h)). cbn [snd].
+  destruct (snd (seek_split t q)) as [|e r]; [reflexivity|]. cbn [map]. change (eS (absE h e)) with (eS e).
+  destruct (q <? eS e); reflexivity.
+Qed.
+
+Lemma chain_sorted_disjoint lo (t : list PE) : chain_from lo t -> sorted_disjoint (map (fun e => (eS e, eE e)) t).
+Proof.
+  revert lo. induction t as [|e r IH]; intros lo Hc; [exact I|]. cbn [chain_from] in Hc. destruct Hc as [_ [H2 [_ Hr]]].
+  cbn [map sorted_disjoint]. split; [exact H2|]. split; [|eapply IH; exact Hr].
+  destruct r as [|e2 r2]; [exact I|]. cbn [map]. cbn [chain_from] in Hr. lia.
+Qed.
+
+Lemma ranges_abs t h : ranges (go_entries t h) = map (fun e : PE => (eS e, eE e)) (map (absE h) t).
+Proof. unfold ranges, go_entries. rewrite !map_map. apply map_ext. intros e. reflexivity. Qed.
+
+(* the state reached by a history satisfies the three parts of the property, provided every place
+   where the configuration c differs from the repaired code was either repaired (flag of c) or not
+   exercised (ghost flag hz of the run) *)
+Lemma grun_inv c : forall ops1 t h flags hz0 ops0 t' h' flags' hz,
+  Forall (wfE h) t -> Inv (map (absE h) t) ops0 ->
+  grun c t h ops1 flags hz0 = Some (t', h', flags', hz) ->
+  fix_clip c = true \/ hz = false -> fix_gap c = true \/ hz = false ->
+  Forall (wfE h') t' /\ Inv (map (absE h') t') (ops0 ++ ops1) /\ flags' = flags ++ naive_flags ops0 ops1.
+Proof.
+  induction ops1 as [|[[a b] v] r IH]; intros t h flags hz0 ops0 t' h' flags' hz Hw HI Hr Hc Hg.
+  - unfold grun in Hr. cbn [irun] in Hr. injection Hr as <- <- <- _. cbn [naive_flags]. rewrite !app_nil_r. repeat split; assumption.
+  - unfold grun in Hr. cbn [irun] in Hr. fold (go_insert c t h a b v) in Hr.
+    destruct (go_insert c t h a b v) as [|t1 h1 d1 hz1] eqn:Hins; [discriminate|]. fold grun in Hr.
+    assert (Hz1 : hz = false -> hz1 = false).
+    { intros Hz. pose proof (grun_hz_mono _ _ _ _ _ _ _ _ _ _ Hr Hz) as H0. apply orb_false_iff in H0. apply H0. }
+    assert (Hc1 : fix_clip c = true \/ hz1 = false) by (destruct Hc as [Hc|Hc]; [left; exact Hc|right; exact (Hz1 Hc)]).
+    destruct (ginsert_sim c t h a b v t1 h1 d1 hz1 Hw Hins Hc1) as [phz [Hp [X1 [W1 Hphz]]]].
+    assert (Hg1 : fix_gap c = true \/ phz = false) by (destruct Hg as [Hg|Hg]; [left; exact Hg|right; exact (Hphz (Hz1 Hg))]).
+    destruct (pinsert_guard c _ a b v _ d1 phz Hp Hg1) as [hz' Hrep].
+    assert (Hab : a <= b).
+    { unfold go_insert, iinsert in Hins. destruct (Z.ltb_spec b a); [discriminate|assumption]. }
+    destruct (pinsert_repaired _ ops0 a b v HI Hab) as [t2 [hz2 [Hrep2 HI2]]].
+    rewrite Hrep in Hrep2. injection Hrep2 as <- Hd _.
+    destruct (IH t1 h1 (flags ++ [d1]) (hz0 || hz1) (ops0 ++ [(a, b, v)]) t' h' flags' hz W1 HI2 Hr Hc Hg) as [W' [HI' Hf']].
+    rewrite <- app_assoc in HI', Hf'. cbn [app] in HI'. split; [exact W'|]. split; [exact HI'|].
+    rewrite Hf'. cbn [naive_flags]. rewrite <- app_assoc. rewrite Hd. reflexivity.
+Qed.
+
+Lemma Inv_empty : Inv [] [].
+Proof. split; [exists 0; exact I|]. split; [intros q; reflexivity|constructor]. Qed.
+
+Lemma grun_total c : forall ops t h flags hz0, Forall valid_op ops -> grun c t h ops flags hz0 <> None.
+Proof.
+  induction ops as [|[[a b] v] r IH]; intros t h flags hz0 Hv; unfold grun; cbn [irun]; [discriminate|].
+  inversion Hv as [|? ? Hop Hv']; subst. cbn [valid_op] in Hop.
+  destruct (iinsert heap slice hsingle happend hspare c t h a b v) as [|t1 h1 d1 hz1] eqn:Hins.
+  - exfalso. unfold iinsert in Hins. destruct (Z.ltb_spec b a); [lia|].
+    destruct (seek_split t a) as [bef rest].
+    destruct (iloop heap slice hsingle happend hspare c h rest a b v None) as [[[[r' pd] pv] h1] hz1].
+    destruct pv as [p|]; [destruct (eE p <? b); [destruct (hsingle h1 v)|]|destruct (hsingle h1 v)]; discriminate.
+  - apply IH. exact Hv'.
+Qed.
+
+(* ------------------------------------------------------------------ the theorems *)
+Definition intersect_ok (ops : list (Z * Z * nat)) (t : list (entry slice)) (h : heap) (flags : list bool) : Prop :=
+  sorted_disjoint (ranges (go_entries t h))
+  /\ (forall q, values_of (go_get t h q) = naive ops q)
+  /\ flags = naive_flags [] ops.
+
+Lemma intersect_guarded_lemma c ops t h flags hz :
+  go_run c ops = Some (t, h, flags, hz) ->
+  fix_clip c = true \/ hz = false -> fix_gap c = true \/ hz = false ->
+  intersect_ok ops t h flags.
+Proof.
+  intros Hr Hc Hg. unfold go_run in Hr. fold grun in Hr.
+  destruct (grun_inv c ops [] [] [] false [] t h flags hz (Forall_nil _) Inv_empty Hr Hc Hg) as [_ [[[lo Hch] [Hlk _]] Hf]].
+  cbn [app] in *. split; [|split].
+  - rewrite ranges_abs. eapply chain_sorted_disjoint. exact Hch.
+  - intros q. rewrite lk_abs. apply Hlk.
+  - exact Hf.
+Qed.
+
+(* the code as it is: the property holds for every history in which no Insert evaluates the gap
+   test on adjacent entries and no Insert appends to a slice with spare capacity *)
+Lemma intersect_partial_lemma : forall ops t h flags,
+  go_run asis ops = Some (t, h, flags, false) -> intersect_ok ops t h flags.
+Proof. intros ops t h flags Hr. eapply intersect_guarded_lemma; [exact Hr|right; reflexivity|right; reflexivity]. Qed.
+
+(* the repaired code: every history of valid insertions *)
+Lemma intersect_repaired_lemma : forall ops, Forall valid_op ops ->
+  exists t h flags hz, go_run repaired ops = Some (t, h, flags, hz) /\ intersect_ok ops t h flags.
+Proof.
+  intros ops Hv. destruct (go_run repaired ops) as [[[[t h] flags] hz]|] eqn:Hr.
+  - exists t, h, flags, hz. split; [reflexivity|]. eapply intersect_guarded_lemma; [exact Hr|left; reflexivity|left; reflexivity].
+  - exfalso. unfold go_run in Hr. fold grun in Hr. exact (grun_total repaired ops [] [] [] false Hv Hr).
+Qed.
+
+Lemma go_run_panics_iff c : forall ops, go_run c ops = None <-> ~ Forall valid_op ops.
+Proof.
+  intros ops. split.
+  - intros Hr Hv. unfold go_run in Hr. fold grun in Hr. exact (grun_total c ops [] [] [] false Hv Hr).
+  - intros Hn. destruct (go_run c ops) as [[[[t h] fl] hz]|] eqn:Hr; [|reflexivity]. exfalso. apply Hn.
+    unfold go_run in Hr. fold grun in Hr. clear Hn. revert Hr. generalize (@nil (entry slice)) (@nil (list nat)) (@nil bool) false.
+    induction ops as [|[[a b] v] r IH]; intros t0 h0 f0 z0 Hr; [constructor|].
+    unfold grun in Hr. cbn [irun] in Hr.
+    destruct (iinsert heap slice hsingle happend hspare c t0 h0 a b v) as [|t1 h1 d1 hz1] eqn:Hins; [discriminate|].
+    constructor; [|eapply IH; exact Hr]. cbn [valid_op]. unfold iinsert in Hins. destruct (Z.ltb_spec b a); [discriminate|assumption].
 Qed.
